@@ -7,6 +7,9 @@ import (
 	"io"
 	"os"
 	"path/filepath"
+	"strconv"
+	"strings"
+	"time"
 
 	"github.com/Breeze0806/go/log"
 	"github.com/Breeze0806/gobinlog"
@@ -47,6 +50,24 @@ func main() {
 			defer j.Close()
 		}
 	}
+	// memory watchdog: a library that loops allocating on a corrupted event must
+	// not take the sandbox down; the run is then inconclusive, never "held"
+	limit := uint64(1536 << 20) // resident set; a normal worker stays below 100 MiB
+	go func() {
+		for {
+			time.Sleep(200 * time.Millisecond)
+			rss := residentBytes()
+			if rss > limit {
+				msg := fmt.Sprintf("worker exceeded its memory bound (%d MiB resident); the scenario logged last in the journal was running", rss>>20)
+				fmt.Fprintln(os.Stderr, "vworker:", msg)
+				c.Log("MEMORY-BOUND-EXCEEDED")
+				if *out != "" {
+					_ = c.Finish(*out, msg)
+				}
+				os.Exit(5)
+			}
+		}
+	}()
 	fatal := core.Guard(func() { chk(c) })
 	if fatal != "" {
 		fmt.Fprintln(os.Stderr, "vworker: check crashed:", fatal)
@@ -60,4 +81,18 @@ func main() {
 	if fatal != "" {
 		os.Exit(3)
 	}
+}
+
+// residentBytes reads the resident set size from /proc/self/statm.
+func residentBytes() uint64 {
+	b, err := os.ReadFile("/proc/self/statm")
+	if err != nil {
+		return 0
+	}
+	f := strings.Fields(string(b))
+	if len(f) < 2 {
+		return 0
+	}
+	pages, _ := strconv.ParseUint(f[1], 10, 64)
+	return pages * uint64(os.Getpagesize())
 }
